@@ -2,6 +2,7 @@
 from __future__ import annotations
 
 import math
+import os
 import random
 
 from simkit import core
@@ -44,7 +45,7 @@ ASSUMPTIONS = [
     "run_ode/j_from_ode are trusted here (decided by C10)",
     "numba, numpy, scipy are trusted",
 ]
-FAULT_KINDS = ["alloc_failure_in_get_differentials", "same_name_other_system", "cancel_in_model_phase", "model:raises", "x:nan_or_inf", "x:destabilising", "model:diverging",
+FAULT_KINDS = ["caller_threads_interleaved", "alloc_failure_in_get_differentials", "same_name_other_system", "cancel_in_model_phase", "model:raises", "x:nan_or_inf", "x:destabilising", "model:diverging",
                "model:nan_after", "illegal:set_model_unsupported",
                "illegal:get_differentials_unsupported", "short_circuit_1e200"]
 PROBES = ["short_circuit_after_recorded_case", "model_eval_between_raw_evals",
@@ -100,11 +101,13 @@ def plan(tier: str) -> list:
         return [{"name": "history", "n": 2500, "max_ops": 25},
                 {"name": "bundled", "n": 24, "max_ops": 4, "bundled": True},
                 {"name": "surrogate", "n": 32, "max_ops": 6,
-                 "surrogate": True}]
+                 "surrogate": True},
+                {"name": "threads", "n": 240, "max_ops": 2, "threads": True}]
     return [{"name": "history", "n": 150000, "max_ops": 25},
             {"name": "bundled", "n": 400, "max_ops": 5, "bundled": True},
             {"name": "surrogate", "n": 1200, "max_ops": 8,
-             "surrogate": True}]
+             "surrogate": True},
+            {"name": "threads", "n": 12000, "max_ops": 3, "threads": True}]
 
 
 def warmup() -> None:
@@ -160,14 +163,36 @@ def gen_x(rng: random.Random, dim: int) -> tuple[list, str]:
 def generate(rng: random.Random, batch: dict, depth: int = 0) -> dict:
     doc = _generate(rng, batch)
     if depth == 0 and "bundled" not in doc["system"] \
-            and not batch.get("surrogate") and rng.random() < 0.1:
+            and not batch.get("surrogate") and not batch.get("threads") \
+            and rng.random() < 0.1:
         twin = _generate(rng, {**batch, "max_ops": 8})
         if "bundled" not in twin["system"]:
             doc["twin"] = twin
     return doc
 
 
+def _generate_threads(rng: random.Random, batch: dict) -> dict:
+    """Two caller threads, each with an objective object of its own (built
+    from its own instance of the same system), evaluating at the same time."""
+    system = gen_system(rng)
+    dim = system["sd"] * system["cd"]
+    threads = []
+    for _ in range(2):
+        xs = []
+        for _ in range(rng.randint(1, batch["max_ops"])):
+            x, _how = gen_x(rng, dim)
+            xs.append([fhex(v) if math.isfinite(v) else repr(v) for v in x])
+        threads.append({"xs": xs, "picks": [
+            [rng.random(), rng.random(), rng.random()]
+            for _ in range(rng.choice([1, 2, 4, 8]))]})
+    return {"system": system, "cls": rng.choice(["mean", "le"]),
+            "supports_model": rng.random() < 0.6, "ops": [],
+            "threads": threads}
+
+
 def _generate(rng: random.Random, batch: dict) -> dict:
+    if batch.get("threads"):
+        return _generate_threads(rng, batch)
     if batch.get("bundled"):
         sysname = rng.choice(["stuart_landau", "lorenz", "stuart_landau",
                               "lorenz", "three_coupled_oscillators"])
@@ -460,9 +485,77 @@ def execute(doc: dict) -> dict:
         signal.signal(signal.SIGALRM, old)
 
 
+def _execute_threads(doc: dict) -> dict:
+    """Each thread's evaluations must give what they give when that thread
+    runs alone - whatever the interleaving of the Python-level steps."""
+    import warnings
+
+    import numpy as np
+    warnings.simplefilter("ignore")
+    from moptipyapps.dynamic_control.objective import (FigureOfMerit,
+                                                       FigureOfMeritLE)
+    res = core.new_result()
+    cls = FigureOfMeritLE if doc["cls"] == "le" else FigureOfMerit
+    supports = bool(doc["supports_model"])
+    name = "sys" + core.digest(doc["system"])[:10]
+    pre = core.Preempt((os.sep + "moptipyapps" + os.sep, ))
+
+    def body_for(th):
+        inst, _ = _build(doc["system"], name)
+        obj = cls(inst, supports)
+        xs = [np.array([unhex(v) for v in x], dtype=float) for x in th["xs"]]
+
+        def body():
+            vals = [obj.evaluate(x) for x in xs]
+            rows = None
+            if supports:
+                try:
+                    a, b = obj.get_differentials()
+                    rows = (np.array(a), np.array(b))
+                except ValueError:
+                    rows = None
+            return vals, rows
+        return body
+    alone, points = [], []
+    for th in doc["threads"]:
+        out, table = pre.profile(body_for(th))
+        alone.append(out)
+        points.append(core.Preempt.pick_points(table, th["picks"]))
+        res["ops"] += len(th["xs"])
+    got, switches = pre.run([body_for(th) for th in doc["threads"]], points)
+    core.bump(res["faults"], "caller_threads_interleaved")
+    if switches >= 2:
+        core.bump(res["probes"], "thread_switches>=2")
+    res["events"].append(["threads", switches, [
+        [fhex(float(v)) if math.isfinite(v) else repr(v) for v in a[0]]
+        for a in alone]])
+    for i, (a, g) in enumerate(zip(alone, got)):
+        if isinstance(g, BaseException):
+            core.violation(res, "concurrent-evaluation-raised",
+                           f"thread {i}: {type(g).__name__}: {g}")
+            break
+        same_vals = len(a[0]) == len(g[0]) and all(
+            _same_float(u, v) for u, v in zip(a[0], g[0]))
+        same_rows = (a[1] is None) == (g[1] is None) and (
+            a[1] is None or (_arr_eq(a[1][0], g[1][0])
+                             and _arr_eq(a[1][1], g[1][1])))
+        if not (same_vals and same_rows):
+            core.violation(
+                res, "concurrent-evaluation-differs-from-sequential",
+                f"thread {i} (its own objective object): values {g[0]} with "
+                f"the other thread running in between ({switches} switches), "
+                f"{a[0]} alone; recorded data equal: {same_rows}")
+            break
+    res["sim_time"] += float(res["ops"])
+    res["nontrivial"] = switches >= 1
+    return res
+
+
 def _execute(doc: dict) -> dict:
     """Optionally followed by a twin: a different system that carries the SAME
     name (and hence the same instance name) with its own objective object."""
+    if doc.get("threads"):
+        return _execute_threads(doc)
     name = "sys" + core.digest(doc["system"])[:10]
     res = _execute_one(doc, name)
     twin = doc.get("twin")
@@ -1099,6 +1192,13 @@ def reductions(doc: dict):
         yield {k: v for k, v in doc.items() if k != "twin"}
         for cand in reductions(doc["twin"]):
             yield {**doc, "twin": cand}
+    if doc.get("threads"):
+        for i, th in enumerate(doc["threads"]):
+            for key, mn in (("picks", 0), ("xs", 1)):
+                for cand in core.list_deletions(th[key], mn):
+                    ths = [dict(t) for t in doc["threads"]]
+                    ths[i][key] = cand
+                    yield {**doc, "threads": ths}
     for cand in core.list_deletions(doc["ops"], 1):
         yield {**doc, "ops": cand}
     sysd = doc["system"]
